@@ -46,6 +46,10 @@ def body_multiget(items, raw, c_b, dup):
     if len(c_b) > 0:
         if c_b[:1] in (b"!",) or c_b[:1] == b"N" or c_b[1:2] == b"a":
             return (True, "pre-invalid")
+        if any(x >= 128 for x in c_b):
+            # stored calendar objects are icalendar's to_ical() output, i.e. always valid UTF-8 (A6): a token that
+            # is not decodable does not stand for any stored calendar object
+            return (True, "pre-invalid")
         cal_state["b.ics"] = c_b
     mweb.fresh_world(cal_state, {"c.vcf": b"v1"})
     app = mweb.make_app()
